@@ -17,12 +17,12 @@ import random
 
 import ufl
 from ufl.classes import Conj, Inner, Product, ScalarValue, Sum, Zero
-from ufl.sorting import cmp_expr
+from ufl.sorting import cmp_expr, sorted_expr
 
 import C29_lib as L
 import vlib
 
-HAND_FILES = ["Props/C29_model.v"]
+HAND_FILES = ["Props/C29_model.v", "Props/C29_sorted.v"]
 
 SHARD = 300
 
@@ -143,7 +143,7 @@ def main(run):
     viol = []          # (kind, data)
     disagreements = []
     known_instances = []
-    pair_cases, triple_cases, ctor_cases = [], [], []
+    pair_cases, triple_cases, ctor_cases, sort_cases = [], [], [], []
     tcS, tcP, tcI, tcC = (c._ufl_typecode_ for c in (Sum, Product, Inner, Conj))
     scalar_tcs = sorted({c._ufl_typecode_ for c in ufl.classes.all_ufl_classes if issubclass(c, ScalarValue)})
     hist = {}
@@ -235,8 +235,23 @@ def main(run):
                 known_instances.append(rec)
             else:
                 viol.append(("transitivity", rec))
+        # n-ary sorting (sorted_expr as used by build_integral_data / derivative): all 6 orders of the triple
+        outs = {}
+        for p in itertools.permutations(range(3)):
+            o = sorted_expr([es[i] for i in p])
+            outs[p] = tuple(next(i for i in range(3) if es[i] is x) for x in o)
+        dist3 = len({L.m_erase(t) for t in ts}) == 3
+        hist["sorted_triples"] = hist.get("sorted_triples", 0) + 1
+        if dist3 and (al or strict) and len({tuple(ts[i] for i in o) for o in outs.values()}) > 1:
+            viol.append(("sorted-order-dependence",
+                         {"a": describe(es[0]), "b": describe(es[1]), "c": describe(es[2]),
+                          "sorted_expr of the 6 orders (positions in a,b,c)": {str(p): list(o) for p, o in outs.items()},
+                          "expected": "one and the same list for all orders (C29_sort_order_independent)"}))
         if emit:
             triple_cases.append((ts[0], ts[1], ts[2], r[0, 1], r[1, 2], r[0, 2], al))
+            if al or strict:
+                for p in ((0, 1, 2), (2, 0, 1), (1, 0, 2)):
+                    sort_cases.append((tuple(ts[i] for i in p), tuple(ts[i] for i in outs[p])))
 
     # -- run everything on the real code
     maxtri = 60 if tier == "quick" else 800
@@ -289,7 +304,8 @@ def main(run):
     run.extra['python_phase_s'] = round(time.time() - run.t0, 1)
     # -- Coq: the model evaluated on the same inputs
     files = []
-    items = [("pair", c) for c in pair_cases] + [("triple", c) for c in triple_cases] + [("ctor", c) for c in ctor_cases]
+    items = [("pair", c) for c in pair_cases] + [("triple", c) for c in triple_cases] + [("ctor", c) for c in ctor_cases] + \
+            [("sort", c) for c in sort_cases]
     # dedupe
     seen, uniq = set(), []
     for it in items:
@@ -315,6 +331,10 @@ def main(run):
                 ta, tb, tc, r1, r2, r3, al = c
                 bools.append(((kind, c), f"check_triple {S} {em.name(ta)} {em.name(tb)} {em.name(tc)} {L.CMPNAME[r1]} "
                                          f"{L.CMPNAME[r2]} {L.CMPNAME[r3]} {'true' if al else 'false'}"))
+            elif kind == "sort":
+                tin, tout = c
+                eqs.append(((kind, ("sort",) + c), "sort_model %s [%s]" % (S, "; ".join(em.name(t) for t in tin)),
+                            "[%s]" % "; ".join(em.name(t) for t in tout)))
             else:
                 op, tc, ta, tb, tout = c
                 sc = "[" + "; ".join(em.num(x) for x in scalar_tcs) + "]"
@@ -329,7 +349,8 @@ def main(run):
             lemma_info[nm] = [x[0] for x in bools[k:k + BATCH]]
             body.append(f"Example {nm} : forallb (fun b => b) [{'; '.join(x[1] for x in bools[k:k + BATCH])}] = true.\n"
                         "Proof. vm_cast_no_check (eq_refl true). Qed.")
-        for tag, ty, sel in (("ctor", "list tree", [x for x in eqs if x[0][1][0] != "inner"]),
+        for tag, ty, sel in (("ctor", "list tree", [x for x in eqs if x[0][1][0] not in ("inner", "sort")]),
+                             ("sort", "list (list tree)", [x for x in eqs if x[0][1][0] == "sort"]),
                              ("inner", "list (option tree)", [x for x in eqs if x[0][1][0] == "inner"])):
             for k in range(0, len(sel), BATCH):
                 nm = f"s{sh // SHARD}_{tag}{k // BATCH}"
@@ -347,10 +368,11 @@ def main(run):
         os.remove(os.path.join(vlib.GEN, f"C29_cases_{k}.v"))
         k += 1
 
-    hand = vlib.coqc("Props/C29_model.v")
-    run.add_coq_result(hand)
-    if not hand.ok:
-        run.violation({"broken": "coq/Props/C29_model.v does not compile", "error": hand.err[-1500:]}, False)
+    for hf in HAND_FILES:
+        hand = vlib.coqc(hf)
+        run.add_coq_result(hand)
+        if not hand.ok:
+            run.violation({"broken": f"coq/{hf} does not compile", "error": hand.err[-1500:]}, False)
     results = vlib.coqc_many(files)
     coq_fail = []
     for res in results:
@@ -359,7 +381,7 @@ def main(run):
             coq_fail.append((os.path.basename(res.path), res.failing_lemma(), (res.err or "")[-300:]))
 
     # -- verdict
-    prio = {"sum-swap": 0, "product-swap": 0, "inner-swap": 0, "inner-nontermination": 1, "antisymmetry": 1,
+    prio = {"sum-swap": 0, "product-swap": 0, "inner-swap": 0, "sorted-order-dependence": 0, "inner-nontermination": 1, "antisymmetry": 1,
             "reflexivity": 2, "clone": 2, "transitivity": 3, "indistinct": 4}
     viol.sort(key=lambda v: prio.get(v[0], 5))
     reported = set()
@@ -404,7 +426,9 @@ def main(run):
     run.extra["comparator_variant"] = "repaired (_cmp_multi_index compares lengths)" if strict else "pinned"
     run.extra["known_class_instances"] = len(known_instances)
     run.extra["case_histogram"] = {"pairs": len(pair_cases), "triples_emitted": len(triple_cases),
-                                   "constructor_cases": len(ctor_cases), "families": len(fams) + len(tfams)}
+                                   "constructor_cases": len(ctor_cases), "families": len(fams) + len(tfams),
+                                   "sorted_expr_triples_all_6_orders": hist.get("sorted_triples", 0),
+                                   "sorted_expr_cases_vs_isort": len(sort_cases)}
     for kind, c in [u for u in uniq if u[0] == "pair"][:2] + [u for u in uniq if u[0] == "triple"][:2] + \
             [u for u in uniq if u[0] == "ctor"][:2]:
         run.sample({"kind": kind, "case": str(c)[:300]})
@@ -415,6 +439,8 @@ def main(run):
         "is round-trip checked, the rest is what the correspondence samples",
         "T3: agreement of model and implementation is sampled (seeded generator), not proved",
         "CPython list.sort on two elements asks cmp(b, a) < 0 once (model of sorted_expr on pairs)",
+        "n-ary sorted_expr: CPython's sorted() returns a stable sorted permutation (the theorems use only "
+        "'sorted permutation'; the executable model isort is compared with the real output on operand triples)",
     ])
     return run.finish(
         rule="case = pair (both directions), triple (3 results + class flag) or constructor output of real "
